@@ -1,5 +1,4 @@
 SPECIFICATION Spec
 CONSTANT Caught = {"TypeError","ValueError"}
 INVARIANT RebuildSound
-INVARIANT SweepComplete
 CHECK_DEADLOCK FALSE
